@@ -536,7 +536,7 @@ func runC20(cases string, res *Result) {
 		}
 		steps := c.list("steps")
 		first := map[string]string{}
-		nontrivial := stream == "flood"
+		nontrivial := stream == "flood" || strings.HasPrefix(stream, "hot-")
 		for si, s0 := range steps {
 			s := s0.(map[string]interface{})
 			vi := int(s["v"].(float64))
@@ -551,7 +551,7 @@ func runC20(cases string, res *Result) {
 			// the first findings carry the whole history up to the failing step, so that the replay starts from
 			// an empty cache and walks the same lookups
 			full := func() map[string]interface{} {
-				if res.OracleFails+res.Disagreements < 3 && si < 4000 {
+				if res.OracleFails+res.Disagreements < 3 && si < 12000 {
 					return map[string]interface{}{"stream": stream, "values": vdescs, "steps": steps[:si+1], "step_index": si, "history_len": len(steps)}
 				}
 				return small
@@ -633,7 +633,12 @@ func runC20(cases string, res *Result) {
 		}
 		kb, _ := json.Marshal([]interface{}{c["values"], c["steps"]})
 		res.count(string(kb), nontrivial)
-		if stream == "flood" {
+		for _, n := range c.list("model_notes") {
+			// the model left its proved envelope (the translator read an unexpected shape): answers are still checked
+			// against direct reflection and against earlier answers of the same history
+			res.Hist["model_note:"+fmt.Sprint(n)]++
+		}
+		if stream == "flood" || strings.HasPrefix(stream, "hot-") {
 			res.Hist["flood:steps"] += len(steps)
 		}
 		if len(steps) > 0 && stream == "small" {
